@@ -80,7 +80,7 @@ def gen_key(r):
 
 
 def gen_default(r):
-    return r.pick([0, [], "", None])
+    return r.pick([0, [], "", None, [1, 2, 3], [[1], 2]])
 
 
 def is_container(v):
@@ -534,6 +534,34 @@ def concretize(m, op):
         V[n2] = set_path(V[n2], p2, v1)
         return {"src": "swap %s, %s" % (render_path(n1, p1), render_path(n2, p2)), "cls": "swap:d%d,d%d%s" % (len(p1), len(p2), ":same" if n1 == n2 else "")}
 
+    if k == "defaultmut":
+        # pop / remove / consume addressed through a key that is ABSENT from a dict with a container default: the entry is
+        # created from a copy of the default and only that copy changes; the default itself (seen through other absent keys) stays
+        cands = []
+        for n in m.names():
+            pth = walk(R([r.next()]), V[n], 2, want=lambda x: isinstance(x, NDict) and x.has_default and isinstance(x.default, list) and len(x.default) > 0)
+            if pth is not None:
+                cands.append((n, pth))
+        if not cands:
+            return None
+        name, path = cands[r.below(len(cands))]
+        d = get_path(V[name], path)
+        absent = [kk for kk in [0, 1, 2, "k", "j", "", 7, 5, "z"] if d.find(kk) < 0]
+        if not absent:
+            return None
+        key = r.pick(absent)
+        dflt = dc(d.default)
+        which = r.below(3)
+        tgt = render_path(name, path + [key])
+        if which == 0:
+            src, res, newv = "tmp = pop %s" % tgt, dflt[-1], dflt[:-1]
+        elif which == 1:
+            src, res, newv = "tmp = remove %s[0]" % tgt, dflt[0], dflt[1:]
+        else:
+            src, res, newv = "tmp = consume %s" % tgt, dflt, None
+        V[name] = set_path(V[name], path + [key], newv)
+        return {"src": src, "cls": "defaultmut:%d" % which, "expect_tmp": res}
+
     if k == "consume":
         if not V:
             return None
@@ -700,5 +728,5 @@ BUILTIN_CALLS = [
     "(\\t, u = %(x)s -> (u[0] = 99; u))(1)", "[%(x)s, %(x)s] map (\\t -> (t[0] = 99; t))", "(_ append 1)(%(x)s)", "%(x)s then (\\t -> (remove t[0]; t))",
 ]
 
-KINDS = ["decl", "alias", "alias", "setidx", "setidx", "setidx", "opassign", "opassign", "defop", "every", "everyvars", "everydeep", "opassign_selfmut",
+KINDS = ["decl", "alias", "alias", "setidx", "setidx", "setidx", "opassign", "opassign", "defop", "every", "everyvars", "everydeep", "opassign_selfmut", "defaultmut",
          "pop", "remove", "remove", "swap", "consume", "update", "destructure", "callmut", "callbuiltin", "failop"]
